@@ -47,6 +47,38 @@ type Func struct {
 	Exported bool   `json:"exported"`
 	Recv     string `json:"recv"`
 	Events   []Ev   `json:"events"`
+	Chans    []Chan `json:"chans,omitempty"`
+}
+
+// Chan: a channel created by this function as the value of a struct field (`Response: make(chan T, n)`): the capacity
+// decides whether the party that answers on it (the event loop) needs the receiver to be there (Locks.tla: Unbuffered)
+type Chan struct {
+	R    string `json:"r"`
+	Cap  int    `json:"cap"` // 0 = unbuffered, -1 = not a literal
+	Line int    `json:"line"`
+}
+
+// madeChan: capacity of `make(chan T[, n])`, ok=false for any other expression
+func madeChan(e ast.Expr) (int, bool) {
+	c, ok := e.(*ast.CallExpr)
+	if !ok || len(c.Args) == 0 {
+		return 0, false
+	}
+	if id, ok := c.Fun.(*ast.Ident); !ok || id.Name != "make" {
+		return 0, false
+	}
+	if _, ok := c.Args[0].(*ast.ChanType); !ok {
+		return 0, false
+	}
+	if len(c.Args) == 1 {
+		return 0, true
+	}
+	if bl, ok := c.Args[1].(*ast.BasicLit); ok && bl.Kind == token.INT {
+		n := 0
+		fmt.Sscanf(bl.Value, "%d", &n)
+		return n, true
+	}
+	return -1, true
 }
 
 var (
@@ -656,6 +688,9 @@ func (w *walker) expr(e ast.Expr) {
 	case *ast.TypeAssertExpr:
 		w.expr(x.X)
 	case *ast.KeyValueExpr:
+		if n, ok := madeChan(x.Value); ok {
+			w.fn.Chans = append(w.fn.Chans, Chan{R: lastField(x.Key), Cap: n, Line: fset.Position(x.Pos()).Line})
+		}
 		w.expr(x.Value)
 	case *ast.CompositeLit:
 		for _, el := range x.Elts {
